@@ -11,8 +11,11 @@ def replay(prop, path, vxname):
     if "cli_c17_else" in case or "cli_c17" in case or "cli_c18" in case or "cli_c08" in case or "cli_c08_repeat" in case or "cli_c08_show" in case or "cli_c08_tiny" in case:
         defects = cli_cfg.replay_case(prop, case)
     elif "cli_cyc_ckpt" in case:
-        n, edges = case["cli_cyc_ckpt"]
-        r = cli_slices.cyc_ckpt_task((n, [tuple(e) for e in edges]))
+        n, edges = case["cli_cyc_ckpt"][:2]
+        r = cli_slices.cyc_ckpt_task((n, [tuple(e) for e in edges]) + tuple(case["cli_cyc_ckpt"][2:3]))
+        defects = [{"sig": "cli:" + s, "detail": d} for s, d, _ in r["v"]]
+    elif "cli_symlink_targets" in case:
+        r = cli_slices.symlink_targets_task(case["cli_symlink_targets"])
         defects = [{"sig": "cli:" + s, "detail": d} for s, d, _ in r["v"]]
     elif "cli_acyc_ckpt" in case:
         n, edges, prior = case["cli_acyc_ckpt"]
